@@ -285,15 +285,29 @@ class HplContradiction(HplPredicate):
 
 def _get_reference_table(expr: HplExpression) -> Dict[str, List[HplExpression]]:
     ref_table = {}
-    for obj in expr.iterate():
+    # quantified variables are local to their quantifier; two quantifiers
+    # may use the same name for variables of different types
+    stack = [(expr, {})]
+    while stack:
+        obj, scope = stack.pop()
         assert isinstance(obj, HplExpression)
         if obj.is_accessor or (obj.is_value and obj.is_variable):
             key = str(obj)
+            base = obj.base_object() if obj.is_accessor else obj
+            if base.is_variable and base.name in scope:
+                key = f'{key} #{scope[base.name]}'
             refs = ref_table.get(key)
             if refs is None:
                 refs = []
                 ref_table[key] = refs
             refs.append(obj)
+        if obj.is_quantifier:
+            inner = dict(scope)
+            inner[obj.variable] = id(obj)
+            stack.append((obj.condition, inner))
+            stack.append((obj.domain, scope))
+        else:
+            stack.extend((child, scope) for child in reversed(obj.children()))
     return ref_table
 
 
